@@ -17,6 +17,10 @@ Static clauses decided (necessary conditions of C26):
           template are emitted; the inline foreign key carries its ON DELETE action.
  M2M      the de-duplication loop for default many-to-many table names continues until the candidate is absent from
           schema.tables (a clash of a default name never silently reuses an existing table).
+ NULLS    the NOT NULL flag of a mapped column is the negation of the attribute's *effective* nullability (Attribute.nullable,
+          which Attribute._init_ forces to True for attributes declared in subclasses of a single-table hierarchy): every
+          add_column call of generate_mapping for attribute columns -- the single-column branch and the composite (multi-column
+          foreign key) branch are siblings -- passes `not attr.nullable`; the columns of link tables are NOT NULL.
 """
 NOT_DECIDED = "equality of the created catalog with the model on each backend; check_tables; dialect DDL syntax"
 
@@ -107,8 +111,24 @@ def run(ctx):
     ok = len(loops) == 1 and any(isinstance(x, ast.Assign) and any(dotted(t) == 'm2m_table' for t in x.targets) and norm(x.value) == 'schema.tables.get(new_table_name)' for x in loops[0].body)
     ctx.ob('C26-M2M.default-name-clash-resolved-by-retry', gm, loops[0] if loops else gm.node, ok, '' if ok else 'the m2m default-name retry loop no longer re-checks schema.tables for each candidate')
 
+    # ---------------------------------------------------------------- NULLS
+    adds = [c for c in calls_in(gm.node) if isinstance(c.func, ast.Attribute) and c.func.attr == 'add_column']
+    ctx.floor('C26-NULLS', len(adds), 3, 'add_column calls in generate_mapping')
+    for c in adds:
+        flag = c.args[3] if len(c.args) > 3 else next((k.value for k in c.keywords if k.arg == 'is_not_null'), None)
+        recv_ = norm(c.func.value)
+        if 'm2m' in recv_:
+            ok = isinstance(flag, ast.Constant) and flag.value is True; want = 'True'
+        else:
+            ok = flag is not None and norm(flag) == 'not attr.nullable'; want = 'not attr.nullable'
+        ctx.ob('C26-NULLS.not-null-flag-follows-effective-nullability', gm, c, ok,
+               '' if ok else 'this column gets is_not_null = `%s`; its sibling branches use `%s`: for an attribute declared in a subclass (nullable is forced to True because '
+               'rows of the other classes share the table) the column becomes NOT NULL and rows of the sibling classes cannot be inserted'
+               % (norm(flag) if flag is not None else 'default', want), node=c, expected=want)
+
 
 MUTANTS = [
+    dict(id='C26-n1', file='pony/orm/core.py', fn='Database.generate_mapping', old="table.add_column(column_name, converter.get_sql_type(), converter, not attr.nullable)", new="table.add_column(column_name, converter.get_sql_type(), converter, attr.is_required)", expect='C26-NULLS'),
     dict(id='C26-m1', file='pony/orm/dbapiprovider.py', fn='DBAPIProvider.get_default_fk_name', old='        return provider.normalize_name(fk_name.lower())', new='        return provider.normalize_name(fk_name).lower() + "_fk"', expect='C26-LIMIT.default-name'),
     dict(id='C26-m2', file='pony/orm/dbapiprovider.py', fn='DBAPIProvider.get_default_m2m_column_names', old="            return [ normalize_name(entity.__name__.lower()) ]", new="            return [ entity.__name__.lower() ]", expect='C26-LIMIT.default-name'),
     dict(id='C26-m3', file='pony/orm/dbschema.py', fn='Column.get_sql', old="            else:\n                if column.is_unique: append(case('UNIQUE'))",
